@@ -4,7 +4,6 @@ import (
 	"fmt"
 	"go/types"
 	"sort"
-	"strings"
 
 	"golang.org/x/tools/go/ssa"
 )
@@ -416,7 +415,13 @@ func runC20_6(c *Ctx) {
 		}
 	}
 	sort.Strings(users)
-	c.Check(strings.Join(users, ",") == "ParseBytes,appendArg", "allocArg consumers", "", "ParseBytes (via argsScanner.next) and appendArg", fmt.Sprintf("allocArg (which recycles slots) is used by %v: every consumer must overwrite key and value; the rule knows only ParseBytes and appendArg", users))
+	okUsers := len(users) >= 1
+	for _, u := range users {
+		if u != "ParseBytes" && u != "appendArg" {
+			okUsers = false
+		}
+	}
+	c.Check(okUsers, "allocArg consumers", "", "ParseBytes (via argsScanner.next) and appendArg", fmt.Sprintf("allocArg (which recycles slots) is used by %v: every consumer must overwrite key and value; the rule knows only ParseBytes and appendArg", users))
 	// appendArg: both stores on every path
 	aa := p.Fn(utils, "", "appendArg")
 	for _, f := range []struct {
